@@ -23,6 +23,7 @@ from src.alignment.segment_with_resolved_conflicts import AlignmentSegmentConfli
 from src.alignment.segments_factory import AlignmentSegmentsFactory  # noqa: E402
 from src.alignment.alignment_position import ScoredAlignedPair, AlignedPair  # noqa: E402
 from src.correlation.vectorise import vectorisePositions, blur  # noqa: E402
+from src.correlation.sequence_generator import SequenceGenerator  # noqa: E402
 from src.correlation.optical_map import toRelativeGenomicPositions  # noqa: E402
 from src.correlation.peaks_selector import PeaksSelector, SelectedPeak  # noqa: E402
 
@@ -139,15 +140,21 @@ def _exec(op, kv):
                         kv["rev"] == "1")
         return C.show_items(res)
     if op == "SEGS":
-        f = shared(AlignmentSegmentsFactory, int(kv["ms"]), int(kv["bs"]))
-        pos = [_Score(s) for s in ints(kv["S"])]
+        den = int(kv.get("den", "1"))
+        if den != 1:
+            # scores in units of 1/den: the real factory computes with exact fractions (scores with two or more decimals)
+            f = shared(AlignmentSegmentsFactory, Fraction(int(kv["ms"]), den), Fraction(int(kv["bs"]), den))
+            pos = [_Score(Fraction(s, den)) for s in ints(kv["S"])]
+        else:
+            f = shared(AlignmentSegmentsFactory, int(kv["ms"]), int(kv["bs"]))
+            pos = [_Score(s) for s in ints(kv["S"])]
         segs = f.getSegments(pos, Peak(0, 1.0))
         if len(segs) == 1 and segs[0].empty:
             return "E"
         out = []
         for s in segs:
             i0 = next(i for i, p in enumerate(pos) if p is s.positions[0])
-            out.append(f"{i0}-{i0 + len(s.positions)}:{num(s.segmentScore)}")
+            out.append(f"{i0}-{i0 + len(s.positions)}:{num(s.segmentScore * den)}")
             assert all(a is b for a, b in zip(s.positions, pos[i0:i0 + len(s.positions)]))
         return " ".join(out)
     if op == "JOIN":
@@ -210,7 +217,6 @@ def _exec(op, kv):
         assert int(kv["res"]) % u == 0
         if op == "VEC":
             return "".join(str(b) for b in vectorisePositions(pos, int(kv["res"]) // u, Fraction(int(kv["start"]), u), stop))
-        from src.correlation.sequence_generator import SequenceGenerator
         v = shared(SequenceGenerator, int(kv["res"]) // u, int(kv["blur"])).positionsToSequence(pos, Fraction(int(kv["start"]), u), stop)
         return "".join(str(int(b)) for b in v)
     if op == "VEC":
@@ -230,9 +236,12 @@ def _exec(op, kv):
         assert np.max(np.abs(c - np.rint(c))) < 1e-6 and np.max(np.abs(n - np.rint(n))) < 1e-6
         return ",".join(str(int(x)) for x in np.rint(c)) + " N=" + ",".join(str(int(x)) for x in np.rint(n))
     if op == "SEQ":
-        from src.correlation.sequence_generator import SequenceGenerator
         stop = None if kv["stop"] == "none" else int(kv["stop"])
         v = shared(SequenceGenerator, int(kv["res"]), int(kv["blur"])).positionsToSequence(ints(kv.get("POS", "")), int(kv["start"]), stop)
+        return "".join(str(int(b)) for b in v)
+    if op == "GETSEQ":
+        stop = None if kv["stop"] == "none" else int(kv["stop"])
+        v = C.parse_map(kv["M"]).getSequence(shared(SequenceGenerator, int(kv["res"]), int(kv["blur"])), kv["rev"] == "1", int(kv["start"]), stop)
         return "".join(str(int(b)) for b in v)
     if op == "XCORR":
         # exactly the call `refine` makes: integer arrays, mode 'valid', method 'fft'
@@ -254,7 +263,6 @@ def _exec(op, kv):
     if op == "REFINE":
         import numpy as np
         from src.correlation.optical_map import InitialAlignment
-        from src.correlation.sequence_generator import SequenceGenerator
         res, bl, margin, thr = kv["sec"].split(",")
         ref, qry = C.parse_map(kv["REF"]), C.parse_map(kv["QRY"])
         ia = InitialAlignment(np.array([]), qry, ref, [], kv["rev"] == "1", 0., 1400, 1)
@@ -278,7 +286,6 @@ def _exec(op, kv):
     if op == "PRIMARY":
         # the primary stage is NOT in the model (its normalising factor carries FFT rounding noise, which decides exact
         # ties); this op only feeds the model-independent oracle `oracle_primary`
-        from src.correlation.sequence_generator import SequenceGenerator
         ref, qry = C.parse_map(kv["REF"]), C.parse_map(kv["QRY"])
         ia = qry.getInitialAlignment(ref, shared(SequenceGenerator, int(kv["res"]), int(kv["blur"])), int(kv["mpd"]), int(kv["count"]),
                                      kv["rev"] == "1")
@@ -725,7 +732,10 @@ def _candidate_fractional(kv):
         a, b, c, d = t.split(":")
         return OpticalMap(int(a), Fraction(int(b) + u - 1, u), [Fraction(int(x), u) for x in d.split(",")] if d else [], int(c))
     peaks = [Peak(Fraction(p, u), float(10 + (p * 7919 + i * 104729) % 97), 0, 0, float((p * 31 + i) % 89)) for i, p in enumerate(ints(kv.get("peaks", "")))]
-    row = al.align(fmap(kv["REF"]), fmap(kv["QRY"]), peaks, kv["rev"] == "1")
+    qmap = fmap(kv["QRY"])
+    if kv.get("trimq") == "1":
+        qmap = qmap.trim()
+    row = al.align(fmap(kv["REF"]), qmap, peaks, kv["rev"] == "1")
 
     def sc(x):          # a coordinate or score, scaled back to integer units (an empty segment scores float 0.0: sums may be floats)
         if isinstance(x, float):
